@@ -76,6 +76,21 @@ func (ls2 *LeaseSet2) Verify() error {
 func (ls2 *LeaseSet2) signingPublicKeyForVerification() (types.SigningPublicKey, error) {
 	if ls2.HasOfflineKeys() && ls2.offlineSignature != nil {
 		// Use transient signing public key from offline signature
+		// The transient key is only trusted if the offline signature block was itself
+		// signed by the destination's long-term key; without this check anyone could
+		// attach a self-made transient key. Fails closed for destination key types whose
+		// offline signatures cannot be verified.
+		destKey, err := ls2.destination.SigningPublicKey()
+		if err != nil {
+			return nil, oops.Errorf("failed to get signing public key from Destination: %w", err)
+		}
+		ok, err := ls2.offlineSignature.VerifySignature(destKey.Bytes())
+		if err != nil {
+			return nil, oops.Errorf("failed to verify offline signature: %w", err)
+		}
+		if !ok {
+			return nil, oops.Errorf("offline signature is not valid under the destination's signing key")
+		}
 		transientKeyBytes := ls2.offlineSignature.TransientPublicKey()
 		transientSigType := ls2.offlineSignature.TransientSigType()
 		spk, err := key_certificate.ConstructSigningPublicKeyByType(transientKeyBytes, int(transientSigType))
